@@ -7,15 +7,19 @@ import (
 	badger "github.com/dgraph-io/badger/v4"
 
 	"verif/h/core"
+	"verif/h/gen"
 	"verif/h/hist"
 )
+
+func genExpand(tok string, n int) []byte { return gen.Expand(tok, n) }
 
 // C06 value and metadata round trip across the (static or dynamic) value threshold.
 func C06(c *core.Ctx) {
 	c.Rule("histories whose value sizes form a ladder around every threshold in play (0,1,threshold-1/=/+1, block size +-1, 4 KiB, 20 KiB, 64 KiB) with all " +
 		"meta/expiry/discard combinations, static thresholds 32/64/1024 and VLogPercentile 0.5/0.99 (threshold moves while entries are in flight); values are " +
 		"read through Get->Value, Get->ValueCopy, iterator with prefetch and without, during the run, after it, and after close/re-open; full byte comparison " +
-		"by digest against the PRF-expanded token; distinct = (option variant, size, read path) triples checked")
+		"by digest against the PRF-expanded token; plus a large-value family (values from 1 MiB-1 to 5 MiB next to small ones, ValueLogFileSize 8-16 MiB) read back " +
+		"after the run, after clean close/re-open (twice) and after a value-log GC pass; distinct = (option variant, size, read path) triples checked")
 	work := c.WorkDir()
 	defer os.RemoveAll(work)
 	idx := 0
@@ -90,8 +94,116 @@ func C06(c *core.Ctx) {
 			_ = os.RemoveAll(res.Dir)
 		}
 	}
+	for i := 0; i < c.Pick(2, 8); i++ {
+		c06Large(c, work, i)
+	}
 	if c.Counter("threshold.dynamic_changes_observed") == 0 {
 		c.Inconclusive("the dynamic value threshold never moved")
 	}
-	c.Assume("value-log GC is excluded here (its effects are the subject of C15); values up to 64 KiB")
+	c.Assume("value-log GC is excluded from the concurrent histories (its effects are the subject of C15); values up to 64 KiB there, up to 5 MiB in the sequential large-value family")
+}
+
+// c06Large: values around and above 1 MiB (the largest permitted ValueThreshold) mixed with small
+// ones, written sequentially; every value must read back identically after the run, after each of
+// two clean close/re-open cycles (the newest value-log file is replayed by Open) and after GC.
+func c06Large(c *core.Ctx, work string, idx int) {
+	r := c.Rand(fmt.Sprintf("c06-large-%d", idx))
+	dir := fmt.Sprintf("%s/large%d", work, idx)
+	_ = os.MkdirAll(dir, 0o755)
+	defer os.RemoveAll(dir)
+	ov := hist.SmallOptions(dir, []int{0, 3, 1}[idx%3], r)
+	ov.Opt.ValueLogFileSize = int64(8+8*(idx%2)) << 20
+	ov.Opt.ValueLogMaxEntries = 1000
+	ov.Opt.MemTableSize = 1 << 20
+	db, err := badger.Open(ov.Opt)
+	if err != nil {
+		c.Inconclusive("open: " + err.Error())
+		return
+	}
+	sizes := []int{100, 1<<20 - 1, 1 << 20, 1<<20 + 1, 40, 2 << 20, 3000, 3<<20 + 17, 0, 5 << 20, 64}
+	want := map[string][]byte{}
+	n := 0
+	write := func(k string, size int) bool {
+		n++
+		v := genExpand(fmt.Sprintf("L%d.%d", idx, n), size)
+		if err := db.Update(func(txn *badger.Txn) error { return txn.Set([]byte(k), v) }); err != nil {
+			c.Violation("C06|large|commit-error", fmt.Sprintf("Set of a %d-byte value: %v", size, err), ov.Name)
+			return false
+		}
+		want[k] = v
+		return true
+	}
+	check := func(stage string) {
+		for k, v := range want {
+			err := db.View(func(txn *badger.Txn) error {
+				it, err := txn.Get([]byte(k))
+				if err != nil {
+					return err
+				}
+				got, err := it.ValueCopy(nil)
+				if err != nil {
+					return err
+				}
+				c.Count("large.values_checked", 1)
+				if string(got) != string(v) {
+					c.Violation("C06|large|"+stage+"|value-differs", fmt.Sprintf("key %s: wrote %d bytes, read %d bytes (equal prefix %d)", k, len(v), len(got), commonPrefix(got, v)), map[string]any{"options": ov.Name, "stage": stage})
+				}
+				return nil
+			})
+			if err != nil {
+				c.Violation("C06|large|"+stage+"|read-error", fmt.Sprintf("key %s (%d bytes): %v", k, len(v), err), map[string]any{"options": ov.Name, "stage": stage})
+			}
+		}
+		c.Distinct(fmt.Sprintf("large|%s|%s", ov.Name, stage))
+	}
+	for i, sz := range sizes {
+		if !write(fmt.Sprintf("big%02d", i), sz) {
+			_ = db.Close()
+			return
+		}
+	}
+	c.Eval(1)
+	check("after-run")
+	for cycle := 1; cycle <= 2; cycle++ {
+		if err := db.Close(); err != nil {
+			c.Violation("C06|large|close", err.Error(), ov.Name)
+			return
+		}
+		if db, err = badger.Open(ov.Opt); err != nil {
+			c.Violation("C06|large|reopen", err.Error(), ov.Name)
+			return
+		}
+		check(fmt.Sprintf("after-reopen-%d", cycle))
+		// more data after the big values, so that they are followed by later records in their file
+		for i := 0; i < 3; i++ {
+			write(fmt.Sprintf("tail%d-%d", cycle, i), []int{50, 1<<20 + 5, 700}[i])
+		}
+	}
+	// overwrite some big values (garbage), flatten (discard statistics), GC, read everything again
+	for i := 0; i < 6; i++ {
+		write(fmt.Sprintf("big%02d", i), sizes[i])
+	}
+	_ = db.Flatten(2)
+	for i := 0; i < 3; i++ {
+		if err := db.RunValueLogGC(0.01); err == nil {
+			c.Count("large.gc_rewrites", 1)
+		}
+	}
+	check("after-gc")
+	if err := db.Close(); err == nil {
+		if db, err = badger.Open(ov.Opt); err == nil {
+			check("after-gc-reopen")
+			_ = db.Close()
+		} else {
+			c.Violation("C06|large|reopen", err.Error(), ov.Name)
+		}
+	}
+}
+
+func commonPrefix(a, b []byte) int {
+	n := 0
+	for n < len(a) && n < len(b) && a[n] == b[n] {
+		n++
+	}
+	return n
 }
